@@ -4,7 +4,8 @@
 //! entropy the code under test consumes behind the simulator's PRNG: the bytes returned are a pure
 //! function of `ENTROPY`, which the simulator sets before it starts each run thread.
 //!
-//! Not compiled under Miri (Miri rejects a symbol that clashes with its own shim).
+//! Under Miri the symbol is not defined (Miri rejects a symbol that clashes with its own shim):
+//! there Miri's own seeded RNG answers `getrandom`, which is just as deterministic per `-Zmiri-seed`.
 
 use std::collections::HashMap;
 use std::sync::atomic::{AtomicU64, Ordering};
@@ -17,6 +18,7 @@ pub static BYTES: AtomicU64 = AtomicU64::new(0);
 
 /// # Safety
 /// Called by libstd / libc with a writable buffer of `buflen` bytes.
+#[cfg(not(miri))]
 #[no_mangle]
 pub unsafe extern "C" fn getrandom(buf: *mut core::ffi::c_void, buflen: usize, _flags: u32) -> isize {
     CALLS.fetch_add(1, Ordering::SeqCst);
